@@ -70,6 +70,10 @@ func (in *Interp) global(g *ssa.Global) *Value {
 	p := new(Value)
 	*p = in.zero(g.Type().(*types.Pointer).Elem())
 	in.globals[g] = p
+	if g.String() == "os.Args" {
+		*p = Slice{v: []Value{in.strConst("jd")}}
+		return p
+	}
 	if g.Pkg != nil && !in.w.eng.interpretPkg(g.Pkg.Pkg.Path()) {
 		// a global of a package whose init we do not run: only zero-size values are trustworthy
 		if in.sizes.Sizeof(g.Type().(*types.Pointer).Elem()) != 0 {
